@@ -82,6 +82,7 @@ func afterRun() {
 }
 
 var traceRuns = os.Getenv("VERIF_TRACE") != ""
+
 func (c *CountCtx) Err() error {
 	return ErrBudget
 }
